@@ -1,57 +1,91 @@
-import NixModel.Lemmas.C20Frame
+import NixModel.Lemmas.C20HistDel
 
 /-!
-# C20 — deletion by object (the proposed repair of `H5Group.delete_all`, reports/C20-delete-by-object.*)
+# C20 — deletion by object: what it leaves alone
 
-`delete_all` as it is removes every link to an object that carries one of the given *ids*
-(`Graph.deleteAll`), so after an id-keeping copy within one file deleting on one side hits the other
-(`independent_delete_counterexample`). The proposed repair removes the links that lead to the given
-*objects*. `deleteObjs` models it; `deleteObjs_keeps_copy` is the statement `independent_delete_full`
-asks for, for both id policies: deleting any set of old objects leaves the copy in its container.
-(Not part of the model of the code as it is: nothing in `Store/` uses `deleteObjs`.)
+`H5Group.delete_all` takes the HDF5 objects to unlink (since the repair `fix: deleting an entity also
+deleted every same-id copy file-wide`; before it, it took ids and removed every link to *any* object
+carrying one of them, so after an id-keeping copy within one file deleting on one side hit the other —
+`Props/C20.independent_delete_counterexample_before_fix` about the old function `Graph.deleteAll`).
+The model's primitive is `Graph.deleteObjs` (`Store/Graph.lean`; basic lemmas `node?_` / `links_` /
+`getAttr_deleteObjs` in `Lemmas/StoreWFBasic.lean`), used by `contDel` and `dropAuto`.
+
+Here: a node none of whose links leads to a deleted object is exactly as it was (`same_deleteObjs`),
+and its form for the three shapes of key lists `contDel` hands to `deleteObjs`
+(`contDelKeys`, `contDel_eq`). `Props/C20.independent_delete_full` /
+`independent_delete_old_side` / `independent_delete_new_side` are stated with them.
 -/
 namespace Nix.Store.C20
 open Nix.Store Nix.Store.Graph Nix.Store.Lemmas
 
-/-- `delete_all(objs)` after the repair: every link, from any group, to one of the objects is removed -/
-def deleteObjs (g : Graph) (ks : List Nat) : Graph :=
-  { g with nodes := g.nodes.map fun kn =>
-      (kn.1, { kn.2 with links := kn.2.links.filter fun l => !ks.contains l.2 }) }
-
-theorem node?_deleteObjs (g : Graph) (ks : List Nat) (k : Nat) :
-    (deleteObjs g ks).node? k =
-      (g.node? k).map fun n => { n with links := n.links.filter fun l => !ks.contains l.2 } := by
-  unfold Graph.node? deleteObjs
-  simp only
-  generalize g.nodes = l
-  induction l with
-  | nil => rfl
-  | cons a rest ih =>
-    simp only [List.map_cons, List.find?]
-    by_cases hk : a.1 = k
-    · simp only [hk, beq_self_eq_true, Option.map_some]
-    · have : (a.1 == k) = false := by simpa using hk
-      simp only [this]
-      exact ih
-
-theorem links_deleteObjs (g : Graph) (ks : List Nat) (k : Nat) :
-    (deleteObjs g ks).links k = (g.links k).filter fun l => !ks.contains l.2 := by
-  unfold Graph.links
-  rw [node?_deleteObjs]
-  cases g.node? k <;> simp
-
-theorem getAttr_deleteObjs (g : Graph) (ks : List Nat) (k : Nat) (a : String) :
-    (deleteObjs g ks).getAttr k a = g.getAttr k a := by
-  unfold Graph.getAttr
-  rw [node?_deleteObjs]
-  cases g.node? k <;> simp
-
 /-- deleting objects: a node none of whose links leads to a deleted object is unchanged -/
 theorem same_deleteObjs (g : Graph) (ks : List Nat) (k : Nat) (h : ∀ l ∈ g.links k, l.2 ∉ ks) :
-    SameNode g (deleteObjs g ks) k := by
+    SameNode g (g.deleteObjs ks) k := by
   refine ⟨fun a => getAttr_deleteObjs g ks k a, ?_⟩
   rw [links_deleteObjs, List.filter_eq_self]
   intro l hl
+  unfold keepObj
   simpa using h l hl
+
+/-- a link survives the deletion exactly when its target is not among the deleted objects -/
+theorem mem_links_deleteObjs (g : Graph) (ks : List Nat) (k : Nat) (l : String × Nat) :
+    l ∈ (g.deleteObjs ks).links k ↔ l ∈ g.links k ∧ l.2 ∉ ks := by
+  rw [links_deleteObjs, List.mem_filter]
+  unfold keepObj
+  simp
+
+/-- the objects `Container.__delitem__` hands to `delete_all` for the entity `k`, by container flavour:
+the entity itself (`Container`, `FeatureContainer`), the section subtree (`SectionContainer`:
+`item.find_sections()`, the item included), the source subtree and the item (`SourceContainer`) -/
+def contDelKeys (g : Graph) (fl : CFlavour) (k : Nat) : List Nat :=
+  match fl with
+  | .plain | .features => [k]
+  | .sections => subtreeKeys g "sections" k
+  | .sources => subtreeKeys g "sources" k ++ [k]
+  | .link | .sourceLink => []
+
+/-- `del container[key]` through an owning container (not a link list), whenever the call is accepted, is
+`deleteObjs` of `contDelKeys` of the item the key denotes: the entity handed in, or the target of an
+entry of the container group -/
+theorem contDel_eq {g g' : Graph} {c : Cont} {key : Key}
+    (hfl : c.info.flavour ≠ .link ∧ c.info.flavour ≠ .sourceLink)
+    (hop : contDel g c key = .ok g') :
+    ∃ k, (key = .ent k ∨ ∃ l ∈ cLinks g c.node, l.2 = k) ∧ kindOf g k = c.info.item ∧
+      g' = g.deleteObjs (contDelKeys g c.info.flavour k) := by
+  unfold contDel at hop
+  simp only at hop
+  split at hop
+  · cases hop
+  · rename_i k hk
+    have hitem : key = .ent k ∨ ∃ l ∈ cLinks g c.node, l.2 = k := by
+      cases key with
+      | ent k' => simp only [Except.ok.injEq] at hk; exact .inl (by rw [hk])
+      | pos i =>
+        simp only at hk
+        cases hget : contGet g c (.pos i) with
+        | error e => rw [hget] at hk; cases hk
+        | ok l =>
+          rw [hget] at hk
+          simp only [Except.map, Except.ok.injEq] at hk
+          exact .inr ⟨l, contGet_mem hget, hk⟩
+      | str x =>
+        simp only at hk
+        cases hget : contGet g c (.str x) with
+        | error e => rw [hget] at hk; cases hk
+        | ok l =>
+          rw [hget] at hk
+          simp only [Except.map, Except.ok.injEq] at hk
+          exact .inr ⟨l, contGet_mem hget, hk⟩
+    split at hop
+    · cases hop
+    · rename_i hkind
+      have hkind' : kindOf g k = c.info.item := by simpa using hkind
+      refine ⟨k, hitem, hkind', ?_⟩
+      cases hfl' : c.info.flavour
+      all_goals (rw [hfl'] at hop; simp only at hop)
+      all_goals first
+        | (cases hop; rfl)
+        | exact absurd hfl' hfl.1
+        | exact absurd hfl' hfl.2
 
 end Nix.Store.C20
